@@ -116,6 +116,27 @@ def run(F, ck, tier):
         has = any(e.kind == 'call' and e.name in vnames for e in fl.events)
         ck.ob('R03.2', 'pin:compressed:shape-unvalidated', has, 'compressed proof shape validated' if has else
               'no length of CompressedProof / CompressedFriProof / CompressedFriQueryRounds is pinned: surplus components (an extra sibling, an extra map entry) are accepted, missing ones panic', '%s:%d' % (cv[0].file, cv[0].line))
+    # ---- R03.8 circuit digest construction
+    ck.rule('R03.8', 'the circuit digest that seeds every transcript is computed from the preprocessed cap, the (padded-hashed, because variable-length) domain separator and the degree')
+    tb = [f for f in F.find('CircuitBuilder::try_build_with_options', crate='plonky2')]
+    if len(tb) != 1:
+        ck.ob('R03.8', 'anchor', False, 'ANCHOR-MISSING CircuitBuilder::try_build_with_options')
+    else:
+        flb = flow.Flow(F, tb[0], opaque=('CircuitBuilder',))
+        dv = None
+        for e in flb.events:
+            if e.kind == 'struct' and e.extra and e.extra[0] == 'VerifierOnlyCircuitData' and 'circuit_digest' in (e.val or {}):
+                dv = (e, flow.flat(e.val['circuit_digest']))
+        if dv is None:
+            ck.ob('R03.8', 'anchor:literal', False, 'ANCHOR-MISSING: no VerifierOnlyCircuitData { circuit_digest, .. } literal in try_build_with_options', '%s:%d' % (tb[0].file, tb[0].line))
+        else:
+            e, v = dv
+            for key, atom, why in (('digest.hash', 'c:hash_no_pad', 'the digest is a hash of its parts'),
+                                   ('digest.cap', 'c:flatten', 'the preprocessed (constants + sigmas) cap is part of the digest'),
+                                   ('digest.degree', 'c:log2_strict', 'the degree is part of the digest'),
+                                   ('digest.separator-padded', 'c:hash_pad', 'the domain separator has variable length and is hashed WITH padding: without it separators [a] and [a, 0] (and circuits differing only in trailing zeros) give the same circuit digest, hence the same challenges')):
+                ok = flow.has_call(v, atom[2:])
+                ck.ob('R03.8', key, ok, why if ok else 'MISSING in the circuit digest computed by %s: %s' % (tb[0].qual, why), e.loc())
     ck.decided += ['every proof field reaches a checking use', 'every length pinned', 'all FRI checks present, propagated, fed by the right data, over whole sequences', 'preprocessed cap from verifier data', 'compressed path pins the public-input count and shares the verifier']
     ck.undecided += ['that every VALUE change is rejected (Fiat-Shamir + collision resistance: probabilistic)', 'transcript completeness is decided by the C04 check']
     return ('Decides structural necessary conditions of C03: no proof field is dead in the verifier, every length is pinned, every FRI/PLONK check exists and is fed by the proof data it must bind, '
